@@ -1,3 +1,4 @@
 //! Engines that are not history-shaped: child-process outcomes (C16), comparison (C14),
 //! serde (C17), constructors (C06), faults (C07), uninitialised construction (C15).
 pub mod c16;
+pub mod cmp;
